@@ -54,7 +54,7 @@ class RustUnwrapAnalyzer(RustBaseAnalyzer):
         if not self.tree_sitter_available:
             return []
 
-        root = self.parse_rust(code)
+        root = self.parse_rust_with_macro_arguments(code)
         if root is None:
             return []
 
